@@ -175,11 +175,12 @@ def gen_config_case(rng, i):
         sections[s] = gen_conf(rng, 'S:' + s, p=0.4)
     glob = gen_conf(rng, 'G', p=0.4, rare=0.0)
     ini = rng.random() < 0.3
+    gini = rng.random() < 0.2
     reqs = []
     for p in paths:
         m = rng.choice(c02.REQ_METHODS) if kind == 'M' else 'GET'
         reqs.append((p, m))
-    return {'tree': spec, 'kind': kind, 'sections': sections, 'glob': glob, 'ini': ini, 'reqs': reqs}
+    return {'tree': spec, 'kind': kind, 'sections': sections, 'glob': glob, 'ini': ini, 'gini': gini, 'reqs': reqs}
 
 
 def ini_text(sections):
@@ -201,7 +202,11 @@ def run_config_case(case):
     built = T.Built(case['tree'])
     saved = dict(cherrypy.config)
     try:
-        cherrypy.config.update(dict(case['glob']))
+        if case.get('gini') and case['glob']:
+            # the global config arrives as an INI file with a [global] section
+            cherrypy.config.update(io.StringIO(ini_text({'global': case['glob']})))
+        else:
+            cherrypy.config.update(dict(case['glob']))
         if case.get('ini'):
             # the application config arrives as an INI file; the harness-only entries are merged as a dict
             runner = T.Runner(built, case['kind'], sections={})
@@ -461,6 +466,8 @@ def check_config_cases(ctx, cases, compare_model=True):
             ctx.count('conf:kind:' + case['kind'])
             ctx.count('conf:sections:%d' % min(len(case['sections']), 8))
             ctx.count('conf:ini' if case.get('ini') else 'conf:dict')
+            if case.get('gini') and case['glob']:
+                ctx.count('conf:global_as_ini')
             ctx.count('conf:status:%d' % o['status'])
             ctx.count('conf:keys_effective:%d' % min(on_path, 6))
             ctx.count('conf:tools_ran:%d' % len(o['tools_ran']))
